@@ -81,6 +81,14 @@ Theorem C02_code_maps_address_the_given_key :
   take_wf Gen.LocalMap.AssetMap_take = true.
 Proof. exact maps_as_modelled. Qed.
 
+(* clear empties every shard of the sharded map / the one table of the local map *)
+Theorem C02_code_clear_empties_the_whole_map :
+  clears_every_shard Gen.CacheMap.AssetMap_clear = true /\
+  clears_its_table Gen.LocalMap.AssetMap_clear = true /\
+  cache_clear_wf Gen.CacheMap.AssetCache_clear = true /\
+  cache_clear_wf Gen.LocalMap.LocalAssetCache_clear = true.
+Proof. exact clear_empties_the_whole_map. Qed.
+
 Theorem C02_code_keys_carry_the_id_as_given :
   key_ctor_wf Gen.Private.BorrowedKey_new_with false = true /\ key_ctor_wf Gen.Private.BorrowedKey_new true = true /\
   key_ctor_wf Gen.Private.OwnedKey_new_with false = true /\ key_ctor_wf Gen.Private.OwnedKey_new true = true /\
@@ -100,3 +108,25 @@ Theorem C02_code_lookup_before_load :
   lookup_recorded Gen.Anycache.Cache_get_cached_entry_inner = true /\
   load_entry_wf Gen.Anycache.Cache_load_entry = true.
 Proof. exact (conj (proj1 (proj2 (proj2 recording_call_sites))) (proj1 (proj2 (proj2 (proj2 recording_call_sites))))). Qed.
+
+(* a load of a plain type (no nested loads) that does not succeed leaves the map exactly as it was;
+   for every type, a load that does not succeed performs no insertion itself: the map afterwards is
+   the one its loader left *)
+Theorem C02_failed_plain_load_adds_nothing : forall fuel s t id,
+  plain t = true ->
+  (forall e, snd (load_entry_f fuel s t id) <> ROk e) ->
+  cache (fst (fst (load_entry_f fuel s t id))) = cache s.
+Proof. exact failed_plain_load_adds_nothing. Qed.
+
+Theorem C02_failed_load_inserts_nothing_itself : forall f s t id,
+  (forall e, snd (load_entry_f (S f) s t id) <> ROk e) ->
+  cache (fst (fst (load_entry_f (S f) s t id))) =
+  cache (fst (fst (load_and_record (load_entry_f f) (load_owned_f f) (fst (get_cached_rec s t id)) t id))).
+Proof. exact failed_load_inserts_nothing_itself. Qed.
+
+(* the premise is met: an undecodable file, then the same key loaded again after the repair *)
+Example C02_failed_load_nonvacuous :
+  let s0 := fst (run (init_st false) [OWrite "a" "x" (CBytes [104%N; 105%N])]) in
+  (forall e, snd (load_entry_f default_fuel s0 TI "a") <> ROk e) /\ plain TI = true /\
+  cache (fst (fst (load_entry_f default_fuel s0 TI "a"))) = [].
+Proof. vm_compute. repeat split. intros e H; discriminate H. Qed.
